@@ -62,6 +62,17 @@ Theorem C04_next_check_interval : forall ci ri soft has_cr,
 Proof. intros. split; [apply sch_interval_soft|apply sch_interval_other]. Qed.
 Print Assumptions C04_next_check_interval.
 
+(* after each execution (ProcessCheckResult of an active local result): the interval is the one of the
+   state AFTER the result, in which a result always exists - retry_interval iff the post-state is soft,
+   also for the first result of a never-checked checkable *)
+Theorem C04_next_check_after_result : forall (now ci ri : Q) (soft_after : bool) (offset : Z),
+  let I := (if soft_after then ri else ci) : Q in
+  (0 < I)%Q -> (0 <= now)%Q -> 0 <= offset ->
+  (now < sch_update_next_check now (sch_interval_after soft_after ci ri) offset)%Q /\
+  (sch_update_next_check now (sch_interval_after soft_after ci ri) offset <= now + I)%Q.
+Proof. exact sch_next_check_after_result. Qed.
+Print Assumptions C04_next_check_after_result.
+
 (* the scheduler reads force_next_check when it picks; a picked forced checkable cannot be skipped
    and is moved to pending whatever enable_active_checks / period / reachability say *)
 Theorem C04_forced : forall s c,
